@@ -19,6 +19,9 @@ def _alarm(signum, frame):
 def run_scenario(steps, backend="z3", limit_s=20):
     """steps: list of {"a": ...}.  Returns the list of events."""
     events = []
+    if backend == "z3":
+        from .graph_replay import _z3_limit
+        _z3_limit()
     solver = Solver()
     vs = []
     signal.signal(signal.SIGALRM, _alarm)
@@ -62,6 +65,8 @@ def run_scenario(steps, backend="z3", limit_s=20):
                 ev["status"], ev["exc"] = "exc", "DidNotTerminate"
             except Exception as e:  # noqa
                 ev["status"], ev["exc"] = "exc", type(e).__name__
+                if type(e).__name__ == "Z3Exception" and "model is not available" in str(e):
+                    ev["exc"] = "Z3TimeLimit"
             finally:
                 signal.alarm(0)
             ev.update(sol_of(vs))
